@@ -98,7 +98,7 @@ func runC05(c *Ctx) {
 		}
 		c.checkTableImmutable("align", spec.Table)
 	}
-	L.Floor("gencode-table", 195, "3 tables x 65 rows")
+	L.Floor("gencode-table", 97, "3 tables x 65 rows (floor = half of the instances on the pinned tree: a clean-up may merge instances, a rule that sees nothing must still fail)")
 
 	// --- R2 IUPAC tables ---------------------------------------------------------
 	c.checkIupacTables()
@@ -259,7 +259,7 @@ func (c *Ctx) checkIupacTables() {
 		}
 		c.checkTableImmutable("align", "iupacCodeByte")
 	}
-	L.Floor("iupac-table", 60, "15 masks + 16 expansion rows + 15 int rows + 17 byte rows")
+	L.Floor("iupac-table", 30, "15 masks + 16 expansion rows + 15 int rows + 17 byte rows (floor = half of the instances on the pinned tree: a clean-up may merge instances, a rule that sees nothing must still fail)")
 }
 
 // eqArm is one arm of an equality dispatch: `if X == Const goto Block`.
@@ -375,7 +375,7 @@ func (c *Ctx) checkGeneticCodeDispatch() {
 		}
 	})
 	L.Check(errPath, "gencode-dispatch", r.label, "unknown code is an error", c.P.Pos(fn.Pos()), "an error value is constructed on the default arm", "no error is constructed for an unknown code")
-	L.Floor("gencode-dispatch", 4, "3 codes + default")
+	L.Floor("gencode-dispatch", 2, "3 codes + default (floor = half of the instances on the pinned tree: a clean-up may merge instances, a rule that sees nothing must still fail)")
 }
 
 func (c *Ctx) checkGeneticCodeFlags() {
@@ -474,7 +474,7 @@ func (c *Ctx) checkGeneticCodeFlags() {
 			return true
 		})
 	}
-	L.Floor("gencode-flag", 12, "3 commands (translate, phase, phasent) x (3 names + default)")
+	L.Floor("gencode-flag", 6, "3 commands (translate, phase, phasent) x (3 names + default) (floor = half of the instances on the pinned tree: a clean-up may merge instances, a rule that sees nothing must still fail)")
 	_ = sites
 }
 
@@ -655,7 +655,7 @@ func (c *Ctx) checkCodonFolding() {
 				L.OK("codon-fold", r.label, name, c.P.Pos(lk.Pos()), "one lookup in a loop over the positions "+strings.Join(params, ", ")+": key = φ('T', ToUpper(position)) guarded by == 'U'")
 			}
 		}
-		L.Floor("codon-fold", 3, "3 codon positions")
+		L.Floor("codon-fold", 1, "3 codon positions (floor = half of the instances on the pinned tree: a clean-up may merge instances, a rule that sees nothing must still fail)")
 		return
 	}
 	if len(lookups) != 3 {
@@ -683,7 +683,7 @@ func (c *Ctx) checkCodonFolding() {
 			L.OK("codon-fold", r.label, name, c.P.Pos(lk.Pos()), fmt.Sprintf("key = φ('T', ToUpper(%s)) guarded by ==  'U'", param.Name()))
 		}
 	}
-	L.Floor("codon-fold", 3, "3 codon positions")
+	L.Floor("codon-fold", 1, "3 codon positions (floor = half of the instances on the pinned tree: a clean-up may merge instances, a rule that sees nothing must still fail)")
 }
 
 func (c *Ctx) checkTranslateCodonConsts() {
@@ -954,5 +954,5 @@ func (c *Ctx) checkRefCodonAdvance() {
 		L.Check(okAll, "refcodon-advance", r.label, fmt.Sprintf("skipping loop at codon position %d", k), c.P.Pos(lp.Head.Instrs[0].Pos()),
 			fmt.Sprintf("increments positions %d..2 once each", k), fmt.Sprintf("the loop that skips gaps at codon position %d increments %v (want positions %d..2 once each): the codon window no longer covers three reference nucleotides", k, inc, k))
 	}
-	L.Floor("refcodon-advance", 3, "three skipping loops")
+	L.Floor("refcodon-advance", 1, "three skipping loops (floor = half of the instances on the pinned tree: a clean-up may merge instances, a rule that sees nothing must still fail)")
 }
